@@ -50,11 +50,11 @@ CHECKS = {
          "DESIGN.md 4 C11", "Schedules are whatever the OS produces for the client threads (no schedule control): interleavings inside the engine are sampled, not enumerated. A hang is judged by the call deadline plus a process-quiescence test.",
          "property-based testing (proptest) over request sequences with fault-style inputs; canary invariant oracle"),
  "C12": ("exploration",
-         "Generated query strings against a small fixed database: grammar-generated statements of the supported subset (random nesting, three quoting styles, aliases, numeric literal forms incl. beyond u64), a catalogue of unsupported constructs the SQL parser accepts, and token- and byte-level mutations of valid statements. The call must return (no caller panic, no hang, no Canceled); an Ok result must have one column per select item in select-list order under the written name or alias (derived with the SQL parser), equally long columns, a row view describing the same cells as the column view, at most LIMIT rows; an unknown table must give an error.",
+         "Generated query strings against a small fixed database (a three-partition table and a single-partition copy): statements that are well typed for it (so that about a fifth of all statements succeed and the result shape is judged: repeated / aliased / constant / absent select items, aggregates, ORDER BY, LIMIT / OFFSET windows), grammar-generated statements of the supported subset (random nesting, three quoting styles, aliases, numeric literal forms incl. beyond u64), a catalogue of unsupported constructs the SQL parser accepts, and token- and byte-level mutations of valid statements. The call must return (no caller panic, no hang, no Canceled); an Ok result must have one column per select item in select-list order under the written name or alias (derived with the SQL parser), equally long columns, a row view describing the same cells as the column view, at most LIMIT rows; an unknown table must give an error.",
          "DESIGN.md 4 C12", "The expected names are derived by parsing the text with the same SQL parser crate the engine uses (what the text says), not from the engine's own conversion code; an engine-internal panic that reaches the caller as an error value counts as an error value.",
          "grammar-based and mutation-based fuzzing driven by proptest, well-formedness (validity predicate) oracle"),
  "C16": ("exploration",
-         "Round-trip oracles over generated inputs: event buffers (native and hand-built wire messages, every column representation, several tables) must decode to the same tables/columns/row counts/cells; query responses with integer sequences built to hit every layout of the integer codec (constant, range, delta and double-delta at the i8/i16/i32 boundaries +-1, extremes whose differences overflow i64, lengths 0-3), float, string, mixed, null and xor columns must decode value for value; xor float compression must be bit-exact without mantissa and keep sign, exponent and the leading m mantissa bits with mantissa m (0..=52), for max_regret in {0,30,100,1000}.",
+         "Round-trip oracles over generated inputs: event buffers (native and hand-built wire messages, every column representation, several tables; and buffers built row by row through the row API, numeric columns receiving NULL / int / float with gaps, compared with the logged cells before and after the wire) must decode to the same tables/columns/row counts/cells; query responses with integer sequences built to hit every layout of the integer codec (constant, range, delta and double-delta at the i8/i16/i32 boundaries +-1, extremes whose differences overflow i64, lengths 0-3), float, string, mixed, null and xor columns must decode value for value; xor float compression must be bit-exact without mantissa and keep sign, exponent and the leading m mantissa bits with mantissa m (0..=52), for max_regret in {0,30,100,1000}.",
          "DESIGN.md 4 C16", "Pure in-process codecs; NaN payloads compared by bit pattern; the server-side column conversion (encode_column) is exercised end-to-end by C17.",
          "property-based testing (proptest), round-trip (decode o encode) oracle"),
  "C14": ("fault_enumeration",
@@ -66,7 +66,7 @@ CHECKS = {
          "DESIGN.md 4 C15", "Names containing a double quote are not generated (SQL quoting); private helpers are reached through hook H3 wrappers.",
          "property-based testing (proptest) against a reference model plus a validity predicate over the directory listing"),
  "C17": ("exploration",
-         "Differential: one database is served by server::run on a loopback port; generated histories of /insert_bin posts and queries through /query, /query_cols and /multi_query_cols (JSON; binary with and without xor float compression and a mantissa), including failing queries, are compared request by request with run_query on the same handle: same names in order, same values (exact i64/f64 after parsing JSON with round-trip float parsing; non-finite floats are null in JSON; NULL floats are the reserved NaN in binary), failing queries give a 4xx/5xx status and the server keeps answering.",
+         "Differential: one database is served by server::run on a loopback port; generated histories of /insert_bin posts and queries through /query, /query_cols and /multi_query_cols (JSON; binary with and without xor float compression, with a mantissa, and with a mantissa plus full_precision_cols), including failing queries, are compared request by request with run_query on the same handle: same names in order, same values (exact i64/f64 after parsing JSON with round-trip float parsing; non-finite floats are null in JSON; NULL floats are the reserved NaN in binary), failing queries give a 4xx/5xx status and the server keeps answering.",
          "DESIGN.md 4 C17", "One server per shard process with per-case table names (actix does not release a stopped server's worker threads promptly); only the data endpoints are exercised; binary responses carry columns in a map, so only the name set is compared there.",
          "property-based testing (proptest), differential oracle (HTTP vs embedded API)"),
  "C09": ("fault_enumeration",
